@@ -4,6 +4,7 @@ import (
 	"fmt"
 	"go/ast"
 	"go/token"
+	"go/types"
 )
 
 // ---- R-DECIMAL-EXACT (C06) ---------------------------------------------------------------------
@@ -82,13 +83,13 @@ func ruleChoiceTagLookup(c *Ctx, r *Report) {
 		ok, found := false, false
 		var pos token.Pos = f.Decl.Pos()
 		ast.Inspect(f.Decl.Body, func(x ast.Node) bool {
-			loop, isFor := x.(*ast.ForStmt)
-			if !isFor || found {
+			loop := loopBodyOf(x)
+			if loop == nil || found {
 				return !found
 			}
 			// the descent loop is the one that indexes a Dir map.
 			var idx *ast.IndexExpr
-			ast.Inspect(loop.Body, func(y ast.Node) bool {
+			ast.Inspect(loop, func(y ast.Node) bool {
 				if ie, ok := y.(*ast.IndexExpr); ok && idx == nil {
 					if se, ok := ast.Unparen(ie.X).(*ast.SelectorExpr); ok && se.Sel.Name == "Dir" {
 						idx = ie
@@ -102,7 +103,7 @@ func ruleChoiceTagLookup(c *Ctx, r *Report) {
 			found, pos = true, loop.Pos()
 			// the object the loop descends from (childSchema in `childSchema.Dir[p]`).
 			cursor := ObjOf(info, idx.X.(*ast.SelectorExpr).X)
-			ast.Inspect(loop.Body, func(y ast.Node) bool {
+			ast.Inspect(loop, func(y ast.Node) bool {
 				call, isCall := y.(*ast.CallExpr)
 				if !isCall || target == nil {
 					return true
@@ -150,4 +151,69 @@ func ruleChoiceTagLookup(c *Ctx, r *Report) {
 		r.Check(ok, "ytypes.hasRelativePath:skips-choice-case", c.Pos(f.Decl.Pos()), "the walk towards the root tests util.IsChoiceOrCase on the ancestor",
 			"ytypes.hasRelativePath compares every ancestor's name with the path, choice and case nodes included: the field for `config/k1-leaf` (leaf within a choice below config) is never found ('struct field k1-leaf not found in parent')")
 	}
+}
+
+// ruleChoiceFirstChild: the same requirement on util.firstMatching, the descent behind
+// util.FirstChild (ForEachField / PruneConfigFalse resolve compressed field paths with it).
+func ruleChoiceFirstChild(c *Ctx, r *Report) {
+	r.Rule("R-CHOICE-FIRSTCHILD", "util.firstMatching, the descent behind util.FirstChild, falls back to the choice/case children of the node it has reached on a Dir miss at every path element (compressed field paths such as state/foo leave choice and case out)", 1)
+	f := c.MustFunc(r, "util", "firstMatching")
+	if f == nil {
+		return
+	}
+	info := f.Info()
+	target := c.Func("util", "FindFirstNonChoiceOrCase")
+	ok, found := false, false
+	pos := f.Decl.Pos()
+	ast.Inspect(f.Decl.Body, func(x ast.Node) bool {
+		loop := loopBodyOf(x)
+		if loop == nil || found {
+			return !found
+		}
+		var cursor types.Object
+		ast.Inspect(loop, func(y ast.Node) bool {
+			if ie, ok := y.(*ast.IndexExpr); ok && cursor == nil {
+				if se, ok := ast.Unparen(ie.X).(*ast.SelectorExpr); ok && se.Sel.Name == "Dir" {
+					cursor = ObjOf(info, se.X)
+				}
+			}
+			return true
+		})
+		if cursor == nil {
+			return true
+		}
+		found, pos = true, loop.Pos()
+		ast.Inspect(loop, func(y ast.Node) bool {
+			call, isCall := y.(*ast.CallExpr)
+			if !isCall || target == nil || len(call.Args) == 0 || ObjOf(info, call.Args[0]) != cursor {
+				return true
+			}
+			if g := c.funcOfCallee(Callee(info, call)); g != nil {
+				for _, h := range c.astReach(g) {
+					if h.Obj == target.Obj {
+						ok = true
+					}
+				}
+			}
+			return true
+		})
+		return false
+	})
+	if !found {
+		r.Und("util.firstMatching:descent-loop", c.Pos(f.Decl.Pos()), "no loop that indexes a Dir map found")
+		return
+	}
+	r.Check(ok, "util.firstMatching:descent-loop", c.Pos(pos), "a Dir miss falls back to the choice/case children of the current node",
+		"util.firstMatching looks every element after the first up with a plain Dir access: the field `state/foo` of a leaf within a choice below a compressed-out state container is not found, ForEachField skips it, and PruneConfigFalse leaves the config false leaf set")
+}
+
+// loopBodyOf: the body of a for or range statement (nil for any other node).
+func loopBodyOf(x ast.Node) *ast.BlockStmt {
+	switch l := x.(type) {
+	case *ast.ForStmt:
+		return l.Body
+	case *ast.RangeStmt:
+		return l.Body
+	}
+	return nil
 }
